@@ -4,3 +4,5 @@ import ReplicatModel.Chunker
 import ReplicatModel.Clmul
 import ReplicatModel.ChunkerSync
 import ReplicatModel.RateLimit
+import ReplicatModel.Sha256
+import ReplicatModel.SigV4
